@@ -7,6 +7,8 @@
 //! oracle that is replayed natively are therefore the same code.
 
 pub mod refs;
+#[path = "kf_generated.rs"]
+pub mod kf;
 
 /// Source of harness inputs.
 pub trait Src {
